@@ -1,5 +1,6 @@
 import Arp.Props.C16
 import Arp.Props.C16Exp
 import Arp.Props.C16Log
+import Arp.Props.C16Sigmoid
 import Arp.Props.FuelWide
 /-! # C16 — every theorem of the property (special operands, `exp` accuracy incl. the overflow / underflow clause, `log` accuracy) -/
